@@ -379,6 +379,18 @@ theorem chunked_copies {β} :
 example : tileCopy (chunks 3 2) (chunks 3 2) [[1, 0, 2], [0, 3, 0], [4, 0, 5]]
     = [[1, 0, 2], [0, 3, 0], [4, 0, 5]] := by decide
 
+/-- `_copy_layer_to_x_dense`: whatever the HDF5 chunk shape of the source
+(`none` = contiguous: the function then copies in tiles of
+`(min(10000, n // 10) or n, m)`), the copy reproduces the matrix. -/
+theorem copy_dense_layer {β} (h5chunks : Option (Nat × Nat)) (D : List (List β)) (m : Nat)
+    (hn : 1 ≤ D.length) (hm : 1 ≤ m) (hrows : ∀ row ∈ D, row.length = m)
+    (hch : ∀ c, h5chunks = some c → 1 ≤ c.1 ∧ 1 ≤ c.2) :
+    copyDenseLayer h5chunks D m = D :=
+  copyDenseLayer_id h5chunks D m hn hm hrows hch
+
+example : copyDenseLayer none [[1, 0, 2], [0, 3, 0], [4, 0, 5]] 3
+    = [[1, 0, 2], [0, 3, 0], [4, 0, 5]] := by decide
+
 /-- the hyperslabs chosen by `_get_slices_for_copy` tile every dimension
 exactly (in order, without overlap), whatever `max_elements` — also 0 — and
 whatever the shape. -/
